@@ -169,10 +169,10 @@ def judge(fmt, verdict, outcome, warns, filename_str, text, eio_fired):
             return [("RAISED_ON_PARSABLE", "%s raised %s: %s on content the format defines" % (
                 loader, type(val).__name__, core.scrub(str(val))[:200]))], "raised"
         want = M.build_value(fmt, verdict["rows"])
-        if verdict.get("int_values"):
+        if verdict.get("int_values") is not None:
             import numpy as np
 
-            want = (want[0], [np.array([int(v) for v in a.tolist()], dtype=int) for a in want[1]])
+            want = (want[0], [np.array(vals, dtype=int) for vals in verdict["int_values"]])
         out = []
         if core.digest(want) != core.digest(val):
             out.append(("WRONG_VALUE", "%s returned %s, file encodes %s" % (loader, core.brief(val), core.brief(want))))
@@ -343,15 +343,19 @@ def _int_verdict(verdict, text, style):
     if verdict["kind"] != "VALUES":
         return {"kind": "UNSPEC", "why": "dtype=int on a file that is not well-formed"}
     lines = M.physical_lines(text) or []
+    int_rows = []
     for line in lines:
         if style["comment"] is not None and line.startswith(style["comment"]):
             continue
         toks = M.split_tokens(line.strip(), style["delim"], -1)
+        vals = []
         for tk in toks[1:]:
             t = tk.strip()
-            if not (t.isascii() and t.isdigit()):
-                return {"kind": "UNSPEC", "why": "non-integer token with dtype=int"}
-    return dict(verdict, int_values=True)
+            if not (t.isascii() and t.isdigit()) or len(t) > 18:
+                return {"kind": "UNSPEC", "why": "non-integer (or > 18 digit) token with dtype=int"}
+            vals.append(int(t))  # exact: never through a float
+        int_rows.append(vals)
+    return dict(verdict, int_values=int_rows)
 
 
 def SimFSFor(plan, fired):
